@@ -388,6 +388,44 @@ def r4(F, R):
 
 # ---- R5 ---------------------------------------------------------------------------------------------
 
+def _suite_verdict_by_table(F, ctor_body, want):
+    """(inputs ok, Ok on the zero edge, plain sum, why) read off the deep table of the unique caller of `ctor_body` (libtest module fns inlined),
+    or None when there is no such caller / the table does not show a comparison with 0."""
+    from . import deep as D
+    from .termtypes import Typer
+    callers = [cb for cb in F.crate_bodies() if cb is not ctor_body and any(F.callee_body(t, cb.crate) is ctor_body for _, t in cb.calls())]
+    if len(callers) != 1:
+        return None
+    cb = callers[0]
+    inl = lambda x: x is ctor_body
+    dp = D.Deep(F, cb, inline_only=inl, max_paths=6000, prune=None)
+    try:
+        rows = dp.run()
+    except Unverifiable:
+        return None
+    T = Typer(F, cb, dp)
+    seen = {}
+    for p in rows:
+        kinds = {x[2] for t_ in [p.ret] + [a for e in p.effects if e[0] == "call" for a in e[2]] + [e[2] for e in p.effects if e[0] == "write"] for x in D.subterms(t_)
+                 if isinstance(x, tuple) and len(x) == 4 and x[0] == "variant" and x[1] == "writer::libtest::SuiteEvent" and x[2] in ("Ok", "Failed")}
+        if len(kinds) != 1:
+            continue
+        cmp0 = [(a, o) for a, o in p.conds if a[0] == "bin" and a[1] in ("Eq", "Ne", "Gt", "Lt") and ((isinstance(a[3], tuple) and a[3] == ("const", 0)) or (isinstance(a[2], tuple) and a[2] == ("const", 0)))]
+        if not cmp0:
+            continue
+        a, o = cmp0[-1]
+        total = a[2] if a[3] == ("const", 0) else a[3]
+        zero = (o is True) if a[1] == "Eq" else (o is False)
+        seen.setdefault(next(iter(kinds)), []).append((total, zero))
+    if "Ok" not in seen or "Failed" not in seen:
+        return None
+    total, _ = seen["Ok"][0]
+    roots = {r.rsplit(".", 1)[-1] for r in T.roots(total) if r.startswith("self.")}
+    ops = {x[1] for x in D.subterms(total) if isinstance(x, tuple) and x and x[0] == "bin"}
+    ok_edge = all(z for _, z in seen["Ok"]) and all(not z for _, z in seen["Failed"])
+    return (roots == want, ok_edge, ops <= {"Add", "AddWithOverflow"} and len(roots) >= 2, f"the total compared with 0 is built from {sorted(roots)} with {sorted(ops)}")
+
+
 def r5(F, R):
     oks = [x for x in roles.builders_of(F, "writer::libtest::SuiteEvent", "Ok")]
     fails = [x for x in roles.builders_of(F, "writer::libtest::SuiteEvent", "Failed")]
@@ -408,6 +446,18 @@ def r5(F, R):
             pol = g.polarity()
             zero_edge = (d[2]["op"] == "Eq" and pol is True) or (d[2]["op"] in ("Ne", "Gt") and pol is False)
             found = (fields, zero_edge, sl)
+    if found is None or found[0] != want:
+        # the Ok / Failed choice may sit in a constructor that is handed the totals (`SuiteEvent::finished(results)`): decided on the table of the
+        # routine that calls it, with the libtest module's own fns inlined
+        tb = _suite_verdict_by_table(F, b, want)
+        if tb is not None:
+            ok_inputs, ok_edge, ok_sum, why = tb
+            R.check(ok_inputs, "suite-verdict-inputs", s_ok, f"failure total = {sorted(want)}", f"suite verdict: {why}; expected exactly {sorted(want)}")
+            R.check(ok_edge, "suite-ok-iff-zero", s_ok, "Ok on the == 0 edge", "SuiteEvent::Ok is produced on the non-zero edge")
+            R.check(ok_sum, "suite-total-is-sum", s_ok, "total is a plain sum", f"total is not a plain sum: {why}")
+            R.ok("suite-failed-is-else", s_fail, "Failed is the other edge of the same test")
+            R.floor(4)
+            return
     if found is None:
         R.violation("suite-verdict-guard", s_ok, "SuiteEvent::Ok is not guarded by a comparison of the failure total with 0")
     else:
